@@ -9,6 +9,9 @@ AllEqual(ts) == \A i \in 1..Len(ts) : TEquals(ts[i], ts[1])
 UnifyFailed(e) ==
   LET ts == e.types  r == e.r IN
   (IF Has(r, "panic") \/ Has(e.other, "panic") THEN {"C09.NoPanic"} ELSE {})
+  \* the list handed to Unify and the input types themselves report the same afterwards (the returned conversions are
+  \* positional: they are meaningless against a list that changed under the caller)
+  \cup (IF Has(e, "it") /\ e.it # e.it2 THEN {"C09.InputTypesUnchanged", "C20.Immutable"} ELSE {})
   \cup (IF r.ok THEN
          (IF Len(e.convs) = Len(ts) THEN {} ELSE {"C09.OneConversionPerInput"})
          \cup (IF \A i \in 1..Len(e.convs) : \A k \in 1..Len(e.convs[i].apps) :
